@@ -88,6 +88,11 @@ func AnalyzeMetrics15sShortcut(script *logql_parser.LogQLScript) bool {
 	if duration.Seconds() < 15 {
 		return false
 	}
+	// metrics_15s holds one pre-aggregate per 15 s: only ranges made of whole pre-aggregates
+	// can be answered from it without counting entries in the neighbouring range bucket
+	if duration.Nanoseconds()%15000000000 != 0 {
+		return false
+	}
 	if lraOrUnwrap.StrSel.Pipelines != nil &&
 		lraOrUnwrap.StrSel.Pipelines[len(lraOrUnwrap.StrSel.Pipelines)-1].Unwrap != nil {
 		return false
